@@ -35,4 +35,5 @@ PY
   echo "$id ($prop): C05=${RES[C05]%%|*} C19=${RES[C19]%%|*} C20=${RES[C20]%%|*}  $([ "$rcm" = 1 ] && echo caught || echo 'NOT CAUGHT by its own property check')"
   [ "$rcm" = 1 ] || missed=$((missed+1))
 done
+( cd $VERIF && ./check build >/dev/null 2>&1 )   # never leave a harness built from a patched tree behind
 echo "recheck done: ${#ids[@]} seeded changes, $missed not caught by the check of the property they break"
